@@ -1,6 +1,6 @@
 (* The Memory instance of Auditable/OverStoreProofs.v: C01's three theorems about the Memory
    model (mem_add_ok, mem_remove_ok, mem_triples_exact) discharge the store laws. *)
-From RV Require Import Auditable.OverMemory Auditable.Proofs Auditable.OverStoreProofs.
+From RV Require Import Auditable.OverMemory Auditable.Proofs Auditable.SpecExt Auditable.OverStoreProofs.
 From RV Require Store.MemProofs Store.GraphProofs.
 
 Notation MemInv := Store.MemProofs.MemInv.
@@ -69,4 +69,19 @@ Proof.
   intros Hn Hw. destruct (mem_of_inv S) as [Hi Ha].
   exact (over_store_single mem mem_add mem_remove mem_triples mem_holds MemInv
            mem_add_ok mem_remove_ok mem_triples_exact (mem_of S) S ops Hi Ha Hn Hw).
+Qed.
+
+(* the tie theorem of the suite `auditable_memory`: the specification checker accepts the
+   Memory-level model's own observations, for every case *)
+Theorem mm_spec_ok c : NoDup (m_init c) -> mspec_ok c (mm_obs c) = true.
+Proof.
+  intros Hn. destruct (mem_of_inv (m_init c)) as [Hi Ha]. unfold mspec_ok.
+  rewrite (spec_ok_ext (m_case c) (mm_obs c) (model_obs (m_case c))).
+  - apply spec_ok_model. exact Hn.
+  - unfold mm_obs, mem_xrun, model_obs, m_case. cbn [c_init c_ops].
+    apply (over_store_obs_rel mem mem_add mem_remove mem_triples mem_holds MemInv
+             mem_add_ok mem_remove_ok mem_triples_exact); auto.
+    + apply dedup_NoDup, quad_eqb_spec.
+    + intros q Hq. apply dedup_In; [apply quad_eqb_spec|]. apply in_or_app. now left.
+    + intros q Hq. apply dedup_In; [apply quad_eqb_spec|]. apply in_or_app. now right.
 Qed.
